@@ -74,7 +74,7 @@ namespace Zrnt.Proofs.C01
 open Zrnt Zrnt.Beacon Zrnt.Beacon.Spec Zrnt.Beacon.BlockImpl Zrnt.Proofs.BeaconBlock
 open Zrnt.Beacon.BlockM (Ctx processHeader processRandaoReveal processEth1Vote processBLSToExecutionChange processExecutionPayload processVoluntaryExit processDeposit
   processAttestationPhase0 processAttestationAltair slashValidator processProposerSlashing processAttesterSlashing processBlock postSlotTransition)
-open Zrnt.Proofs.BlockM (RegU64 ExitSmall PubkeyOK SameDuties SlashSmall SlashInv OpSteps Sim Refines Safe NoOps SameCommittees OnlyExits ExitInv P0Inv P0Const SlashExitBlock AttInv OnlyAttestations P0AInv P0AConst Phase0NoDeposits P0DInv P0DConst Phase0Block AltInv AltConst AltExtra AltairBlock BellatrixBlock)
+open Zrnt.Proofs.BlockM (RegU64 ExitSmall PubkeyOK SameDuties SlashSmall SlashInv OpSteps Sim Refines Safe NoOps SameCommittees OnlyExits ExitInv P0Inv P0Const SlashExitBlock AttInv OnlyAttestations P0AInv P0AConst Phase0NoDeposits P0DInv P0DConst Phase0Block AltInv AltConst AltExtra AltairBlock BellatrixBlock CapellaBlock CapConst Admissible)
 
 /-- (a) `common.ValidatorSet.ZigZagJoin`, called on two strictly increasing index lists (what
 `ValidateIndexedAttestation` has established), calls `onIn` with exactly the spec's
@@ -737,9 +737,73 @@ theorem M_block_refines_S_bellatrix (cfg : Config) (S0 : State) (p Bm C T k : Na
   ⟨(BlockM.processBlock_bellatrix cfg S0 p Bm C T k committee K KA KD KL hsps hF ctx block hb hi htyped).1.1.1,
    (BlockM.postSlot_bellatrix cfg S0 p Bm C T k committee K KA KD KL hsps hF ctx block hb hi htyped r hroot).1.1⟩
 
+/-- `processBlock_capella_eq` — for EVERY capella block (`CapellaBlock`: execution payload with `extra_data` inside its
+type limit, BLS-to-execution changes in any number, the rest as `AltairBlock`): withdrawals (balances only decrease; the
+withdrawal index advances by at most `MAX_WITHDRAWALS_PER_PAYLOAD`, the sweep cursor stays inside the registry —
+`WdInv` inside `AltInv`), the payload step, and BLS changes (a credentials write keeps committees, proposer, exit queue
+and pubkeys). `CapConst`: `MAX_WITHDRAWALS_PER_PAYLOAD ≠ 0`, `VALIDATOR_REGISTRY_LIMIT + MAX_VALIDATORS_PER_WITHDRAWALS_SWEEP < 2^64`. -/
+theorem processBlock_capella_eq (cfg : Config) (S0 : State) (p Bm C T k : Nat) (committee : SyncCommittee) (K : P0Const cfg S0 Bm C)
+    (KA : P0AConst cfg) (KD : P0DConst cfg Bm) (KL : AltConst cfg S0 Bm T) (KC : CapConst cfg) (hsps : 0 < cfg.SECONDS_PER_SLOT)
+    (hF : S0.fork = .capella) (ctx : Ctx) (block : SignedBlock)
+    (hb : CapellaBlock cfg Bm block) (hi : AltInv cfg S0 p Bm C T committee (BlockM.blockNeed block k) ctx S0)
+    (htyped : Block.check_types cfg block = .ok ()) :
+    Sim (Block.process_block cfg S0 block) (processBlock cfg ctx S0 block) ∧
+    ∀ st', processBlock cfg ctx S0 block = .ok st' → ∃ ctx', AltInv cfg S0 p Bm C T committee k ctx' st' :=
+  BlockM.processBlock_capella cfg S0 p Bm C T k committee .capella (by decide) K KA KD KL KC hsps hF ctx block hb hi htyped
+
+/-- `M_block_refines_S_capella` — C01 for capella WITHOUT the premise `OpSteps`. -/
+theorem M_block_refines_S_capella (cfg : Config) (S0 : State) (p Bm C T k : Nat) (committee : SyncCommittee) (K : P0Const cfg S0 Bm C)
+    (KA : P0AConst cfg) (KD : P0DConst cfg Bm) (KL : AltConst cfg S0 Bm T) (KC : CapConst cfg) (hsps : 0 < cfg.SECONDS_PER_SLOT)
+    (hF : S0.fork = .capella) (ctx : Ctx) (block : SignedBlock)
+    (hb : CapellaBlock cfg Bm block) (hi : AltInv cfg S0 p Bm C T committee (BlockM.blockNeed block k) ctx S0)
+    (htyped : Block.check_types cfg block = .ok ()) (r : Bytes) (hroot : block.o_post_root = some r) :
+    (∀ post, Block.process_block cfg S0 block = .ok post → processBlock cfg ctx S0 block = .ok post) ∧
+    (∀ post, Block.state_transition_post_slots cfg S0 block = .ok post → postSlotTransition cfg ctx S0 block = .ok post) :=
+  ⟨(BlockM.processBlock_capella cfg S0 p Bm C T k committee .capella (by decide) K KA KD KL KC hsps hF ctx block hb hi htyped).1.1.1,
+   (BlockM.postSlot_capella cfg S0 p Bm C T k committee .capella (by decide) K KA KD KL KC hsps hF ctx block hb hi htyped r hroot).1.1⟩
+
+/-- `processBlock_deneb_eq` — for EVERY deneb block (the container class of capella; the blob-commitment limit is part of
+`CheckLimits` / the payload step, the attestation window without upper bound and the target flag without delay bound
+are `attestation_deneb_eq`, which the attestation step uses on this fork). -/
+theorem processBlock_deneb_eq (cfg : Config) (S0 : State) (p Bm C T k : Nat) (committee : SyncCommittee) (K : P0Const cfg S0 Bm C)
+    (KA : P0AConst cfg) (KD : P0DConst cfg Bm) (KL : AltConst cfg S0 Bm T) (KC : CapConst cfg) (hsps : 0 < cfg.SECONDS_PER_SLOT)
+    (hF : S0.fork = .deneb) (ctx : Ctx) (block : SignedBlock)
+    (hb : CapellaBlock cfg Bm block) (hi : AltInv cfg S0 p Bm C T committee (BlockM.blockNeed block k) ctx S0)
+    (htyped : Block.check_types cfg block = .ok ()) :
+    Sim (Block.process_block cfg S0 block) (processBlock cfg ctx S0 block) ∧
+    ∀ st', processBlock cfg ctx S0 block = .ok st' → ∃ ctx', AltInv cfg S0 p Bm C T committee k ctx' st' :=
+  BlockM.processBlock_capella cfg S0 p Bm C T k committee .deneb (by decide) K KA KD KL KC hsps hF ctx block hb hi htyped
+
+/-- `M_block_refines_S_deneb` — C01 for deneb WITHOUT the premise `OpSteps`. -/
+theorem M_block_refines_S_deneb (cfg : Config) (S0 : State) (p Bm C T k : Nat) (committee : SyncCommittee) (K : P0Const cfg S0 Bm C)
+    (KA : P0AConst cfg) (KD : P0DConst cfg Bm) (KL : AltConst cfg S0 Bm T) (KC : CapConst cfg) (hsps : 0 < cfg.SECONDS_PER_SLOT)
+    (hF : S0.fork = .deneb) (ctx : Ctx) (block : SignedBlock)
+    (hb : CapellaBlock cfg Bm block) (hi : AltInv cfg S0 p Bm C T committee (BlockM.blockNeed block k) ctx S0)
+    (htyped : Block.check_types cfg block = .ok ()) (r : Bytes) (hroot : block.o_post_root = some r) :
+    (∀ post, Block.process_block cfg S0 block = .ok post → processBlock cfg ctx S0 block = .ok post) ∧
+    (∀ post, Block.state_transition_post_slots cfg S0 block = .ok post → postSlotTransition cfg ctx S0 block = .ok post) :=
+  ⟨(BlockM.processBlock_capella cfg S0 p Bm C T k committee .deneb (by decide) K KA KD KL KC hsps hF ctx block hb hi htyped).1.1.1,
+   (BlockM.postSlot_capella cfg S0 p Bm C T k committee .deneb (by decide) K KA KD KL KC hsps hF ctx block hb hi htyped r hroot).1.1⟩
+
+/-- `M_block_refines_S` — C01, all five forks, WITHOUT the premise `OpSteps`: every block the specification accepts is
+accepted by `ProcessBlock` / `PostSlotTransition` with the same post-state. `Admissible` is the disjunction over the fork of
+the pre-state of the per-fork hypotheses (container class of the fork, the fork's invariant with `blockNeed block k`
+units of budget); `admissible_forks`: the disjunction leaves no fork out. -/
+theorem M_block_refines_S (cfg : Config) (S0 : State) (p Bm C T k : Nat) (committee : SyncCommittee) (K : P0Const cfg S0 Bm C)
+    (KA : P0AConst cfg) (KD : P0DConst cfg Bm) (ctx : Ctx) (block : SignedBlock)
+    (ha : Admissible cfg S0 p Bm C T committee k ctx block)
+    (htyped : Block.check_types cfg block = .ok ()) (r : Bytes) (hroot : block.o_post_root = some r) :
+    (∀ post, Block.process_block cfg S0 block = .ok post → processBlock cfg ctx S0 block = .ok post) ∧
+    (∀ post, Block.state_transition_post_slots cfg S0 block = .ok post → postSlotTransition cfg ctx S0 block = .ok post) :=
+  ⟨(BlockM.processBlock_any cfg S0 p Bm C T k committee K KA KD ctx block ha htyped).1.1,
+   (BlockM.postSlot_any cfg S0 p Bm C T k committee K KA KD ctx block ha htyped r hroot).1.1⟩
+
+theorem admissible_forks (f : Fork) : f = .phase0 ∨ f = .altair ∨ f = .bellatrix ∨ f ≥ .capella := BlockM.fork_cases f
+
 /-- non-vacuity of `AltConst`: a small configuration and a total active balance of 64 -/
 def exampleCfgL : Config :=
   { (default : Config) with SLOTS_PER_EPOCH := 8, MIN_ATTESTATION_INCLUSION_DELAY := 1, SLOTS_PER_HISTORICAL_ROOT := 64, EFFECTIVE_BALANCE_INCREMENT := 1, BASE_REWARD_FACTOR := 1, SYNC_COMMITTEE_SIZE := 4, MAX_VALIDATORS_PER_COMMITTEE := 4 }
+example : CapConst { (default : Config) with MAX_WITHDRAWALS_PER_PAYLOAD := 4, VALIDATOR_REGISTRY_LIMIT := 1099511627776, MAX_VALIDATORS_PER_WITHDRAWALS_SWEEP := 16 } := ⟨by decide, by decide⟩
 example : AltConst exampleCfgL (default : State) 32 64 :=
   ⟨by decide, by decide, by decide, by decide +kernel, by decide, by decide +kernel, by decide, by decide +kernel, by decide +kernel, by decide +kernel⟩
 
